@@ -221,4 +221,9 @@ theorem cancelled_blocked_raw_read_consumes_nothing (cap n : Nat) (j : Nat) (b :
     correspondence streams for an input on which the changed code violates the property. -/
 theorem modelled_code_unchanged : Varlink.Extracted.code_C17 = Varlink.ExpectedCode.code_C17 := by decide
 
+/-- no declaration (function, method, type, constant, variable) has been added to or removed from the
+    fingerprinted source files since the models were validated: a new method or `init` can change behaviour
+    without touching the text of any existing declaration -/
+theorem declarations_known : Varlink.Extracted.declarationSet = Varlink.ExpectedCode.declarationSet := by decide
+
 end Varlink.C17
